@@ -161,6 +161,10 @@ def gen(rng, thorough):
         elif fam == 'equal':
             c['n'] = rng.randint(3, 5)
             c['p'] = 0.5
+            if rng.random() < 0.5:                 # many classes: 100/n is not a binary fraction, the cut list is built in floating point
+                c['n'] = rng.randint(6, 100)
+                c['tiefree'] = True
+                c['data']['n_samples'] = c['n'] * rng.randint(2, 8) + rng.randrange(c['n'])
         elif fam == 'list':
             k = rng.randint(3, 5)
             cuts = sorted(rng.sample(range(1, 20), k - 1))
@@ -536,6 +540,11 @@ def eval_labels(ctx, c, oracle_only, b):
     if c['fam'] == 'cluster':
         if not set(y.tolist()) <= set(range(c['n'])):
             ctx.oracle_fail('labels-shape', f'{short(c)}: cluster labels {sorted(set(y.tolist()))} outside 0..{c["n"] - 1}', c)
+        return
+    if not set(y.tolist()) <= set(range(c['n'])):
+        extra = sorted(set(y.tolist()) - set(range(c['n'])))
+        ctx.oracle_fail('labels-classes', f'{short(c)}: {c["n"]} classes were requested but the labels contain {extra} '
+                        f'({[int((y == e).sum()) for e in extra]} samples): no share of the requested distribution belongs to them', c)
         return
     if len(calls) != 1:
         ctx.corr_fail('labels-percentile-calls', f'{short(c)}: expected one np.percentile call, saw {len(calls)}', c)
